@@ -25,6 +25,14 @@ CHECKS = {
  "C14": ("Lean C14_err_terminal / err_is_node_failure / no_dependent_of_failed over all runs (failing nodes adversarial); tie: trace acceptance with strict treatment of exceptions (an exception that is not a node failure is rejected), monitor on message, location and cause. Partial: message formatting checked, not proved.", "6", "invariant proof over scheduler LTS + trace acceptance"),
 }
 
+ "C01": ("Lean theorems VM.C01_core (schedule independence: every returning run of the scheduler LTS with values computes the sequential denotation, for every attribute assignment and max_concurrency) and VM.C01_flat / traceBody_good (tracer correctness for the flat fragment) — PARTIAL: nested calls and unpack_to are in the executable model (VM/Prog.lean) and tied by the four-way differential run (CPython oracle, real tawazi under random configurations / flavours / config reloads / scripted completion orders, Lean plain evaluation, Lean tracer+denotation) but their tracer-correctness proof is not finished.", "7", "proof (core + flat fragment) + four-way differential testing"),
+ "C10": ("Activation semantics are part of VM.C01_core / C01_flat (flag read through the full reference, deactivated node yields None, dependents released); tie: programs with every flag form on plain nodes and nested DAGs (directed enumeration of nested-call forms) against the CPython oracle and the Lean model. Two nested-DAG findings are recorded as known findings.", "7", "proof (flat fragment) + differential testing + directed enumeration"),
+ "C20": ("Executable Lean model of nested calls by inlining with argument stubs (VM/Prog.lean: traceStmts / evalStmts) compared four ways on random and systematically enumerated nestings (signatures x argument supply x shapes x flags); PARTIAL: the splice-correctness theorem is not yet proved, the proved part is VM.C01_core / C01_flat that the model rests on.", "7", "executable model + differential testing (partial proof)"),
+ "C11": ("Lean theorem VM.C11_setup_at_most_once over arbitrary histories of successful operations, applyOp_res_keep (first value kept); tie: random operation histories (call / executor / setup / setup(target) / deepcopy, sync+async, under scripted completion orders) compared op by op with the Lean history model (entered sets, values).", "7", "induction over histories + differential testing"),
+ "C15": ("Lean theorems runHistory_res_nonsetup / applyOp_res_nonsetup (an instance only ever gains setup results, failing operations included) so a call's outcome is a function of (table, setup results, own arguments); tie: histories with different argument tuples, failing calls, executors, compose, config reloads; executor re-runs after success and after failure must be refused or complete.", "7", "induction over histories + differential testing"),
+ "C18": ("Lean theorem VM.C18_restart_same (a run seeded with cached values computes the same results and its execution graph excludes the cached nodes); tie: (caching run, restart) pairs over whole DAG / target nodes / cache_deps_of with execution counters and pickle key sets. Partial: pickle round-trip trusted.", "7", "proof over denotation + differential testing"),
+}
+
 NOT_YET = {
 }
 
